@@ -14,9 +14,10 @@
 EXTENDS Naturals, Sequences, TLC
 
 Statuses   == {200, 201, 202, 204, 206, 299, 300, 304, 400, 401, 404, 429, 500, 502, 503}
-Transports == {"ok", "connectRefused", "untrustedCert", "wrongHost", "resetInBody", "shortBody"}
+Transports == {"ok", "connectRefused", "untrustedCert", "wrongHost", "resetInBody", "shortBody", "absurdLength"}
 \*   connectRefused: the proxy / host refuses the connection;  untrustedCert: the server's certificate does not chain to the trust store;
-\*   wrongHost: a trusted certificate for another name;  resetInBody / shortBody: the connection dies / ends before Content-Length bytes
+\*   wrongHost: a trusted certificate for another name;  resetInBody / shortBody: the connection dies / ends before Content-Length bytes;
+\*   absurdLength: the response announces 2^63 - 1 bytes and ends after a few (the length a server states is not a size to allocate)
 Redirects  == {"none", "once", "twice", "loop", "noLocation"}     \* 301/302/307 hops before the final status
 Bodies     == {"empty", "small", "large", "binary"}
 Headers    == {"none", "single", "multi"}                          \* extra headers the server sets (one value, several values)
@@ -44,7 +45,7 @@ Exchange == /\ pc = "exchange"
                ELSE IF c.status >= 300 THEN Fail /\ hops' = hops
                ELSE pc' = "body" /\ result' = result /\ hops' = hops
             /\ UNCHANGED c
-ReadBody == /\ pc = "body" /\ (IF c.transport \in {"resetInBody", "shortBody"} THEN Fail ELSE result' = "data" /\ pc' = "done") /\ UNCHANGED <<c, hops>>
+ReadBody == /\ pc = "body" /\ (IF c.transport \in {"resetInBody", "shortBody", "absurdLength"} THEN Fail ELSE result' = "data" /\ pc' = "done") /\ UNCHANGED <<c, hops>>
 Next == Connect \/ Handshake \/ Exchange \/ ReadBody
 Spec == Init /\ [][Next]_vars
 
